@@ -52,14 +52,29 @@ Definition optnat_eqb (a b : option nat) : bool :=
   match a, b with None, None => true | Some x, Some y => Nat.eqb x y | _, _ => false end.
 
 (* checker state: the LTS state and the rendezvous halves still to be confirmed (event code, id) *)
-Definition chk := (state * list (nat * nat))%type.
+(* the checker's state: the LTS state, the rendezvous halves still to be confirmed, and - for the coverage figure of the
+   evidence only - the kinds of the LTS labels taken so far (newest first) *)
+Definition chk := (state * list (nat * nat) * list nat)%type.
+Definition cst (c : chk) : state := fst (fst c).
+Definition cpend (c : chk) : list (nat * nat) := snd (fst c).
+Definition clab (c : chk) : list nat := snd c.
+
+Definition label_kind (l : label) : nat :=
+  match l with
+  | SubEnter _ _ => 0 | SubClosed _ => 1 | SubSend _ => 2 | SubDone _ => 3 | SubCtx _ => 4 | SubUnsub _ => 5 | Cancel _ => 6
+  | PubEnter _ _ => 7 | PubSend _ => 8 | PubClosed _ => 9 | PubRecv _ => 10
+  | ShutEnter _ => 11 | ShutClose _ => 12 | ShutDone _ => 13 | ShutCtx _ => 14 | HCancel _ => 15
+  | LIdle => 16 | LPut _ _ => 17 | LPutRes _ => 18 | LErrs _ => 19 | LSend _ _ => 20 | LFlush _ _ => 21 | LFail _ => 22
+  | LRemove _ => 23 | LRemoveSkip _ => 24 | LReplay _ => 25 | LRSend _ _ _ => 26 | LRFlush _ _ => 27 | LReplayed _ _ => 28
+  | LReject _ => 29 | LReg _ => 30 | LDone => 31 | LExit => 32
+  end.
 
 Definition pair_eqb (a b : nat * nat) : bool := Nat.eqb (fst a) (fst b) && Nat.eqb (snd a) (snd b).
 Fixpoint drop1 (x : nat * nat) (l : list (nat * nat)) : list (nat * nat) :=
   match l with [] => [] | y :: r => if pair_eqb x y then r else y :: drop1 x r end.
 
 Definition do_step (c : chk) (l : label) : option chk :=
-  match step (fst c) l with Some s' => Some (s', snd c) | None => None end.
+  match step (cst c) l with Some s' => Some (s', cpend c, label_kind l :: clab c) | None => None end.
 Definition confirm (c : chk) (b : bool) : option chk := if b then Some c else None.
 Definition bind (o : option chk) (f : chk -> option chk) : option chk :=
   match o with Some c => f c | None => None end.
@@ -67,8 +82,8 @@ Definition bind (o : option chk) (f : chk -> option chk) : option chk :=
 (* the two halves of an unbuffered rendezvous are logged by two goroutines in either order: the
    joint step is taken at the first half, the second half is a confirmation *)
 Definition rendezvous (c : chk) (me other id : nat) (l : label) : option chk :=
-  if existsb (pair_eqb (me, id)) (snd c) then Some (fst c, drop1 (me, id) (snd c))
-  else match step (fst c) l with Some s' => Some (s', (other, id) :: snd c) | None => None end.
+  if existsb (pair_eqb (me, id)) (cpend c) then Some (cst c, drop1 (me, id) (cpend c), clab c)
+  else match step (cst c) l with Some s' => Some (s', (other, id) :: cpend c, label_kind l :: clab c) | None => None end.
 
 Definition sub_ret_is (s : state) (i : nat) (r : option nat) : bool :=
   match s_pc (sub s i) with SRet r' => optnat_eqb r r' | _ => false end.
@@ -78,7 +93,7 @@ Definition shut_ret_is (s : state) (h : nat) (r : option nat) : bool :=
   match h_pc (shut s h) with HRet r' => optnat_eqb r r' | _ => false end.
 
 Definition ev_step (norep : bool) (closer : option nat) (c : chk) (e : val) : option chk :=
-  let s := fst c in
+  let s := cst c in
   let a := as_nat (nth_val 1 e) in
   let b := nth_val 2 e in
   match as_nat (nth_val 0 e) with
@@ -86,11 +101,11 @@ Definition ev_step (norep : bool) (closer : option nat) (c : chk) (e : val) : op
   | 2 => do_step c (SubClosed a)
   | 3 => rendezvous c 3 31 a (SubSend a)
   | 4 => bind (confirm c (match s_pc (sub s a) with AtSel2 | AtSel3 => true | _ => false end))
-           (fun c => bind (do_step c (SubDone a)) (fun c => confirm c (sub_ret_is (fst c) a (dec_err b))))
+           (fun c => bind (do_step c (SubDone a)) (fun c => confirm c (sub_ret_is (cst c) a (dec_err b))))
   | 5 => do_step c (SubCtx a)
   | 6 => rendezvous c 6 35 a (SubUnsub a)
   | 7 => bind (confirm c (match s_pc (sub s a) with Draining => true | _ => false end))
-           (fun c => bind (do_step c (SubDone a)) (fun c => confirm c (sub_ret_is (fst c) a (dec_err b))))
+           (fun c => bind (do_step c (SubDone a)) (fun c => confirm c (sub_ret_is (cst c) a (dec_err b))))
   | 8 => confirm c (sub_returned s a)
   | 9 => confirm c (sub_ret_is s a (dec_err b))
   | 10 => do_step c (Cancel a)
@@ -113,7 +128,7 @@ Definition ev_step (norep : bool) (closer : option nat) (c : chk) (e : val) : op
   | 20 => do_step c (ShutCtx a)
   | 21 => match h_pc (shut s a) with
           | HEntered => (* its close(j.done) panicked and was recovered: somebody else had closed *)
-              bind (do_step c (ShutClose a)) (fun c => confirm c (shut_ret_is (fst c) a (Some E_CLOSED)))
+              bind (do_step c (ShutClose a)) (fun c => confirm c (shut_ret_is (cst c) a (Some E_CLOSED)))
           | HRet _ => Some c
           | _ => None end
   | 22 => confirm c (shut_ret_is s a (dec_err b))
@@ -121,7 +136,7 @@ Definition ev_step (norep : bool) (closer : option nat) (c : chk) (e : val) : op
   | 24 => do_step c LIdle
   | 25 => rendezvous c 25 12 a (PubSend a)
   | 26 => bind (if norep then match pc s with GotMsg _ => do_step c (LPut a VOk) | _ => None end else Some c)
-            (fun c => bind (confirm c (match pc (fst c) with PutDone q v => Nat.eqb q a && verdict_eqb v (dec_verdict b) | _ => false end))
+            (fun c => bind (confirm c (match pc (cst c) with PutDone q v => Nat.eqb q a && verdict_eqb v (dec_verdict b) | _ => false end))
                         (fun c => do_step c (LPutRes a)))
   | 27 => do_step c (LErrs a)
   | 28 => bind (confirm c (match pc s with Failing _ j e _ => Nat.eqb j a && Nat.eqb e (as_nat b) | _ => false end))
@@ -182,14 +197,28 @@ Definition accepted : val := VN 1.
 (* trace inclusion.  A complete run must also leave no rendezvous half unconfirmed. *)
 Definition run_joe (i : val) : val :=
   let evs := events_of i in
-  match check_from (norep_of i) (find_closer evs) (init, []) 0 evs with
+  match check_from (norep_of i) (find_closer evs) (init, [], []) 0 evs with
   | inr (idx, e) => VL [VN 0; vnat idx; e]
   | inl c =>
       match status_of i with
-      | 0 => match snd c with [] => accepted | _ => VL [VN 0; vnat (length evs); VL [VN 3]] end
+      | 0 => match cpend c with [] => accepted | _ => VL [VN 0; vnat (length evs); VL [VN 3]] end
       | 1 => VL [VN 0; vnat (length evs); VL [VN 1]]   (* the process crashed: the model never does *)
       | _ => accepted                                    (* incomplete trace: its prefix is a path *)
       end
+  end.
+
+(* coverage of the LTS by the accepted traces (evidence only): the kinds of the labels taken along a trace that is a
+   path of the model, each kind once; nothing for a trace that is not *)
+Fixpoint dedup_nat (l : list nat) : list nat :=
+  match l with
+  | [] => []
+  | x :: r => if existsb (Nat.eqb x) r then dedup_nat r else x :: dedup_nat r
+  end.
+Definition cover_joe (i : val) : val :=
+  let evs := events_of i in
+  match check_from (norep_of i) (find_closer evs) (init, [], []) 0 evs with
+  | inl c => VL (map vnat (dedup_nat (clab c)))
+  | inr _ => VL []
   end.
 
 (* the property monitors are in RunJoeMon.v *)
